@@ -9,10 +9,12 @@ import (
 	"os"
 	"regexp"
 	"sort"
+	"strconv"
 	"strings"
 	"time"
 
 	"golang.org/x/tools/go/ssa"
+	"golang.org/x/tools/go/ssa/ssautil"
 )
 
 func init() { register("C18", checkC18) }
@@ -184,6 +186,9 @@ func checkC18(p *Prog, rp *Report) {
 		for _, b := range f.Blocks {
 			for _, ins := range b.Instrs {
 				if ta, ok := ins.(*ssa.TypeAssert); ok && !ta.CommaOk {
+					if pooledType(ta) || memoType(ta) {
+						continue // what comes out of a pool / a memo table is what was put into it
+					}
 					nAssert++
 					np.bad(fname(f)+":type-assertion", p.Pos(ta.Pos()), "single-result type assertion on a value whose dynamic type is not checked: a mismatch panics", nil)
 				}
@@ -204,6 +209,7 @@ func checkC18(p *Prog, rp *Report) {
 	c18Env(p, rp, reachList)
 	c18Hostile(p, np)
 	c18StateFamily(p)
+	c18Carry(p, rp)
 }
 
 // c18Hostile: "typed-document parsers return normally" also when the document uses the Go names of struct fields
@@ -1016,9 +1022,33 @@ func runScenarioFamilies(p *Prog) {
 	familiesRun[p] = true
 	for _, id := range []string{"C03", "C05", "C07", "C09", "C10", "C17"} {
 		if fn := registry[id]; fn != nil {
-			fn(p, NewReport(id, "quick"))
+			rp := NewReport(id, "quick")
+			fn(p, rp)
+			familyReports[p] = append(familyReports[p], rp)
 		}
 	}
+}
+
+// familyReports: what the scenario families found when C18 ran them.
+var familyReports = map[*Prog][]*Report{}
+
+// c18Carry: "every call is independent of every other": the families that parse one input after another in the
+// state the previous call left behind (a pool of scratch buffers, a cache) report a result that differs from the
+// one a first call gives, or an earlier result that changes; those findings are violations of this property too.
+func c18Carry(p *Prog, rp *Report) {
+	r := rp.Rule("C18-CARRY", "a parse gives the same result whatever was parsed before it, and leaves earlier results alone", 1)
+	runScenarioFamilies(p)
+	var problems []string
+	for _, fr := range familyReports[p] {
+		for _, rule := range fr.Rules {
+			for _, in := range rule.Instances {
+				if in.Status == "violated" && (strings.Contains(in.Detail, "(parsed next)") || strings.Contains(in.Detail, "changes when the next") || strings.Contains(in.Detail, "a second call") || strings.Contains(in.Detail, "second Update") || strings.Contains(in.Detail, "share")) {
+					problems = append(problems, rule.ID+": "+clip(in.Detail, 400))
+				}
+			}
+		}
+	}
+	fillProblems(r, "parsers", "", problems, "no family that calls a parser twice in one state (C05-FIXPOINT, C05-ALIAS, C07-INV, C09-MERGE, C10 accessors) sees a call influenced by an earlier one")
 }
 
 type pendingSite struct {
@@ -1087,6 +1117,27 @@ func indexInRange(fn *ssa.Function, gs []guard, tm *termer, blk *ssa.BasicBlock,
 	}
 	// induction variable bounded by len of the same value (or of a value the base was made from)
 	it := tm.term(idx)
+	// an array (value or pointer to one) ranged over: the induction variable is tested against the array's length,
+	// a constant
+	arrLen := int64(-1)
+	bt0 := base.Type().Underlying()
+	if pt, isPtr := bt0.(*types.Pointer); isPtr {
+		bt0 = pt.Elem().Underlying()
+	}
+	if at, isArr := bt0.(*types.Array); isArr {
+		arrLen = at.Len()
+	}
+	if arrLen >= 0 {
+		for _, g := range gs {
+			m := regexp.MustCompile(`^\(` + regexp.QuoteMeta(it) + ` < (\d+)(:int)?\)$`).FindStringSubmatch(g.Term)
+			if m == nil || !g.If.Block().Succs[0].Dominates(blk) {
+				continue
+			}
+			if n, err := strconv.ParseInt(m[1], 10, 64); err == nil && n <= arrLen && (nonNeg(idx, map[ssa.Value]bool{}, 0) || rangeCounter(idx)) {
+				return "range induction variable tested against the length of the array", true
+			}
+		}
+	}
 	for _, g := range gs {
 		m := regexp.MustCompile(`^\(` + regexp.QuoteMeta(it) + ` < len\((.*)\)\)$`).FindStringSubmatch(g.Term)
 		if m == nil {
@@ -1165,6 +1216,18 @@ func sliceInRange(fn *ssa.Function, gs []guard, tm *termer, blk *ssa.BasicBlock,
 		}
 		if strings.HasPrefix(t, "len("+bt+")") {
 			return "", true
+		}
+		// a scanning position: never negative (it starts at a constant and grows by constants, by the widths that
+		// utf8.DecodeRune* report, or is such a position found earlier) and tested against the length of this very
+		// string by a guard that dominates the use: s[pos:] inside `for pos < len(s)`
+		if nonNeg(v, map[ssa.Value]bool{}, 0) {
+			for _, g := range gs {
+				for side, rel := range []string{`^\(` + regexp.QuoteMeta(t) + ` (<|<=) len\(` + regexp.QuoteMeta(bt) + `\)\)$`, `^\(` + regexp.QuoteMeta(t) + ` (>=|>) len\(` + regexp.QuoteMeta(bt) + `\)\)$`} {
+					if regexp.MustCompile(rel).MatchString(g.Term) && g.If.Block().Succs[side].Dominates(blk) && !storeBetween(fn, "&"+bt, g.If.Block().Succs[side], blk) {
+						return "a scanning position tested against the length of the same string", true
+					}
+				}
+			}
 		}
 		return "bound " + t + " is not derived from a position found in the same string", false
 	}
@@ -1257,6 +1320,15 @@ func c18Xor(p *Prog, rp *Report) {
 			st := errStatus(errv, knownNonNilAt(b), 0)
 			if knownNilAt(b)[errv] {
 				st = "nil"
+			}
+			// the error of a repository function that never fails (every return of it has a nil error):
+			// `s, err := v.MarshalControl(); return []byte(s), err`
+			if ev, ok := errv.(*ssa.Extract); ok {
+				if c, ok := ev.Tuple.(*ssa.Call); ok {
+					if callee := c.Call.StaticCallee(); callee != nil && inRepo(callee) && errAlwaysNil(callee, ev.Index, 0) {
+						st = "nil"
+					}
+				}
 			}
 			if st == "nil" {
 				continue
@@ -1623,4 +1695,177 @@ func storeBetween(fn *ssa.Function, addrTerm string, from, to *ssa.BasicBlock) b
 		}
 	}
 	return false
+}
+
+// rangeCounter: idx is the hidden counter of a range loop, phi(-1, idx) + 1, which is never negative.
+func rangeCounter(idx ssa.Value) bool {
+	bo, ok := idx.(*ssa.BinOp)
+	if !ok || bo.Op != token.ADD {
+		return false
+	}
+	var ph *ssa.Phi
+	for _, pair := range [][2]ssa.Value{{bo.X, bo.Y}, {bo.Y, bo.X}} {
+		if k, isConst := constInt(pair[1]); isConst && k == 1 {
+			ph, _ = pair[0].(*ssa.Phi)
+		}
+	}
+	if ph == nil {
+		return false
+	}
+	for _, e := range ph.Edges {
+		if e == ssa.Value(bo) {
+			continue
+		}
+		if k, isConst := constInt(e); !isConst || k < -1 {
+			return false
+		}
+	}
+	return true
+}
+
+// errAlwaysNil: result idx of every return of fn is the nil constant (or the same result of a repository function
+// of which that holds).
+func errAlwaysNil(fn *ssa.Function, idx int, depth int) bool {
+	if fn.Blocks == nil || depth > 3 {
+		return false
+	}
+	for _, b := range fn.Blocks {
+		ret, ok := b.Instrs[len(b.Instrs)-1].(*ssa.Return)
+		if !ok {
+			continue
+		}
+		if idx >= len(ret.Results) {
+			return false
+		}
+		v := resolveSpillAt(ret.Results[idx], ret)
+		if c, isConst := v.(*ssa.Const); isConst && c.Value == nil {
+			continue
+		}
+		if ev, isExt := v.(*ssa.Extract); isExt {
+			if c, isCall := ev.Tuple.(*ssa.Call); isCall {
+				if callee := c.Call.StaticCallee(); callee != nil && inRepo(callee) && errAlwaysNil(callee, ev.Index, depth+1) {
+					continue
+				}
+			}
+		}
+		return false
+	}
+	return true
+}
+
+// pooledType: the assertion is on the result of Get on a package-level sync.Pool of the repository whose New
+// returns a value of the asserted type and into which only values of that type are ever Put.
+func pooledType(ta *ssa.TypeAssert) bool {
+	c, ok := ta.X.(*ssa.Call)
+	if !ok {
+		return false
+	}
+	callee := c.Call.StaticCallee()
+	if callee == nil || callee.String() != "(*sync.Pool).Get" || len(c.Call.Args) != 1 {
+		return false
+	}
+	g, ok := c.Call.Args[0].(*ssa.Global)
+	if !ok || g.Pkg == nil || !strings.HasPrefix(g.Pkg.Pkg.Path(), repoModule) {
+		return false
+	}
+	want := ta.AssertedType
+	sameType := func(v ssa.Value) bool {
+		mi, ok := v.(*ssa.MakeInterface)
+		return ok && types.Identical(mi.X.Type(), want)
+	}
+	// the initialiser: &sync.Pool{New: func() any { return <want> }} stored into g in the package's init
+	newOK := false
+	for _, fn := range []*ssa.Function{g.Pkg.Func("init")} {
+		if fn == nil {
+			continue
+		}
+		for _, b := range fn.Blocks {
+			for _, ins := range b.Instrs {
+				st, ok := ins.(*ssa.Store)
+				if !ok {
+					continue
+				}
+				fa, ok := st.Addr.(*ssa.FieldAddr)
+				if !ok || fa.X != ssa.Value(g) {
+					continue
+				}
+				var f *ssa.Function
+				switch x := st.Val.(type) {
+				case *ssa.Function:
+					f = x
+				case *ssa.MakeClosure:
+					f, _ = x.Fn.(*ssa.Function)
+				}
+				if f == nil || f.Blocks == nil {
+					continue
+				}
+				all := true
+				for _, fb := range f.Blocks {
+					if ret, ok := fb.Instrs[len(fb.Instrs)-1].(*ssa.Return); ok {
+						if len(ret.Results) != 1 || !sameType(ret.Results[0]) {
+							all = false
+						}
+					}
+				}
+				newOK = all
+			}
+		}
+	}
+	if !newOK {
+		return false
+	}
+	for fn := range ssautil.AllFunctions(ta.Parent().Prog) {
+		if fn.Blocks == nil || !inRepoOrRef(fn) {
+			continue
+		}
+		for _, b := range fn.Blocks {
+			for _, ins := range b.Instrs {
+				pc, ok := ins.(ssa.CallInstruction)
+				if !ok {
+					continue
+				}
+				if cal := pc.Common().StaticCallee(); cal != nil && cal.String() == "(*sync.Pool).Put" && len(pc.Common().Args) == 2 && pc.Common().Args[0] == ssa.Value(g) {
+					if !sameType(pc.Common().Args[1]) {
+						return false
+					}
+				}
+			}
+		}
+	}
+	return true
+}
+
+// memoType: the assertion is on what Load / LoadOrStore on a per-key memo table (pureMemos) returned, to the type
+// of the only values its function ever stores.
+func memoType(ta *ssa.TypeAssert) bool {
+	ex, ok := ta.X.(*ssa.Extract)
+	if !ok || ex.Index != 0 {
+		return false
+	}
+	c, ok := ex.Tuple.(*ssa.Call)
+	if !ok {
+		return false
+	}
+	callee := c.Call.StaticCallee()
+	if callee == nil || (callee.String() != "(*sync.Map).Load" && callee.String() != "(*sync.Map).LoadOrStore") || len(c.Call.Args) < 2 {
+		return false
+	}
+	g, ok := c.Call.Args[0].(*ssa.Global)
+	if !ok || !pureMemos(ta.Parent().Prog)[g] {
+		return false
+	}
+	// every value published in this function has the asserted type
+	for _, b := range ta.Parent().Blocks {
+		for _, ins := range b.Instrs {
+			pc, ok := ins.(*ssa.Call)
+			if !ok || len(pc.Call.Args) != 3 || pc.Call.Args[0] != ssa.Value(g) {
+				continue
+			}
+			mi, ok := pc.Call.Args[2].(*ssa.MakeInterface)
+			if !ok || !types.Identical(mi.X.Type(), ta.AssertedType) {
+				return false
+			}
+		}
+	}
+	return true
 }
